@@ -10,7 +10,8 @@
 // none -1/0/1, d the difference, t three times the difference, v the difference times a factor
 // 1..5 that depends on the payloads (so two calls on equivalent keys return different numbers),
 // x the sign times 2^40, e math.MinInt64 / 0 / math.MaxInt64, k -1/0/1 delivered through
-// stree.KV.Compare.  B lines (big trees, macro operations): see scale.go.
+// stree.KV.Compare, q -1/0/1 from a comparator that, during the read-only calls g A Y Z, first reads the
+// tree it is called for (Get / InorderAfter / Cursor of the least and the greatest key, Len, Inorder in rotation).  B lines (big trees, macro operations): see scale.go.
 //
 // ops, ';'-separated, trees are numbered in order of creation (New and Clone):
 //
@@ -117,7 +118,7 @@ func parseCmp(s string) (order byte, j int, style byte, ok bool) {
 	}
 	switch rest {
 	case "":
-	case "d", "t", "v", "x", "k", "e":
+	case "d", "t", "v", "x", "k", "e", "q":
 		style = rest[0]
 	default:
 		return
@@ -172,11 +173,54 @@ func cmpFor(s string) func(a, b E) int {
 			}
 			return 0
 		}
+	case 'q': // -1/0/1, and whenever a read-only call of an H line is running the comparator first READS the tree it
+		// is called for (round 5: read-only re-entrancy through the comparison callback)
+		return func(a, b E) int {
+			if reent.t != nil && reent.depth == 0 {
+				reent.depth++
+				reent.calls++
+				t := reent.t
+				// (lookups of OTHER keys than the one being searched: the search paths differ)
+				switch reent.calls % 7 {
+				case 0:
+					t.Get(t.Max())
+				case 1:
+					t.Len()
+					t.Get(b)
+				case 2:
+					collect(t.InorderAfter(t.Min()), 1)
+				case 3:
+					t.Cursor(t.Max()).Prev()
+				case 4:
+					t.IsEmpty()
+					t.Get(t.Min())
+				case 5:
+					collect(t.InorderAfter(t.Max()), -1)
+				default:
+					collect(t.Inorder, 0)
+				}
+				reent.depth--
+			}
+			return sign(pos(a) - pos(b))
+		}
 	case 'k':
 		kv := stree.KV[int, E]{}.Compare(gocmp.Compare[int])
 		return func(a, b E) int { return kv(stree.KV[int, E]{Key: pos(a), Value: a}, stree.KV[int, E]{Key: pos(b), Value: b}) }
 	}
 	return func(a, b E) int { return sign(pos(a) - pos(b)) }
+}
+
+// reent: the tree a read-only call of an H line is running on (nil otherwise), for the comparator style q
+var reent struct {
+	t            *stree.Tree[E]
+	depth, calls int
+}
+
+// reading runs a read-only call on t with the re-entrant comparator switched on
+func reading(t *stree.Tree[E], f func()) {
+	reent.t, reent.depth = t, 0
+	defer func() { reent.t = nil }()
+	f()
 }
 
 // ---- hashes (the driver computes the same ones on the model)
@@ -355,8 +399,10 @@ func execHistory(cmpName, opsStr string) string {
 				case "d":
 					outs = append(outs, tr.B(t.Remove(e))+"@"+summaries(trees))
 				case "g":
-					v, ok := t.Get(e)
-					outs = append(outs, tr.B(ok)+":"+v.String())
+					reading(t, func() {
+						v, ok := t.Get(e)
+						outs = append(outs, tr.B(ok)+":"+v.String())
+					})
 				}
 			case f[0] == "x" && len(f) == 2:
 				t := get(f[1])
@@ -381,7 +427,7 @@ func execHistory(cmpName, opsStr string) string {
 					bad = true
 					return
 				}
-				outs = append(outs, collect(t.InorderAfter(e), stop))
+				reading(t, func() { outs = append(outs, collect(t.InorderAfter(e), stop)) })
 			case f[0] == "S" && len(f) == 2:
 				t := get(f[1])
 				if bad {
@@ -394,14 +440,14 @@ func execHistory(cmpName, opsStr string) string {
 					bad = true
 					return
 				}
-				outs = append(outs, zipRun(trees, travs, f[2]))
+				reading(trees[travs[0].t], func() { outs = append(outs, zipRun(trees, travs, f[2])) })
 			case f[0] == "Y": // read-only calls from inside a loop body (round5.go)
 				outer, stop, every, inners, ok := parseNest(f, len(trees))
 				if !ok {
 					bad = true
 					return
 				}
-				outs = append(outs, nestRun(trees, outer, stop, every, inners))
+				reading(trees[outer.t], func() { outs = append(outs, nestRun(trees, outer, stop, every, inners)) })
 			default:
 				bad = true
 				return
@@ -741,7 +787,7 @@ func pickBeta(r *tr.Rand) int {
 	return tr.Pick(r, betas)
 }
 
-var styles = []string{"d", "t", "v", "x", "k", "e"}
+var styles = []string{"d", "t", "v", "x", "k", "e", "q"}
 
 // pickStyle: half of the histories run under a comparator that delivers the sign some other way
 // than -1/0/1.
@@ -1177,7 +1223,7 @@ func genLimits(g *tr.G) {
 }
 
 func main() {
-	tr.Main("C01: whole histories of stree.Tree over (key,payload) elements compared by key. Comparators: natural, reversed and modulo-j orders, each delivering the sign as -1/0/1, as the difference, three times the difference, a payload-dependent multiple of the difference, sign times 2^40, MinInt64/MaxInt64, or through stree.KV.Compare (half of all histories use a non-unit style). Generators: small random histories over 3..12 keys with New/Add/Replace/Remove/Clear/Clone and full Inorder+shape dumps and Get/InorderAfter/stopped-Inorder probes after every mutation; every insertion order of 4..5 (thorough 6..7) keys followed by every single removal on a fresh clone and lookups of all keys; sign-only probes (keys spaced so that no comparison returns -1 or 1: Get/Add/Replace/Remove/InorderAfter on present keys, keys between two present ones and keys beyond both ends); sorted, reverse, zig-zag, inside-out, random and duplicate-heavy insertion patterns up to 160 (quick) / 1500 (thorough) keys at beta in {0,1,250,500,999,1000} plus random beta, each optionally drained ascending/descending/randomly/three-quarters and refilled; bulk New with unsorted duplicated keys (the kept representatives are recorded as oracle input); two-child removals found on the real tree followed by lookups of the promoted successor; Clone then mutate both copies; New with beta outside 0..1000 (down to MinInt64 and up to MaxInt64, with and without keys) must panic with exactly the documented value. After every mutation: result, Len, IsEmpty, Min, Max, t.max, node count and hashes of the full Inorder output and of the whole shape read through Root/Left/Right/Key, for every live tree. Plus sweeps of the float depth limit VerifLimit(beta,n). Scale stream (B lines, macro operations over arithmetic key sequences): trees of 2^k-1, 2^k, 2^k+1 keys for k = 3..12 and a few random sizes up to 8192, built by Add or Replace in ascending/descending/outside-in/inside-out/random order or by New from sorted/unsorted/duplicated keys (oracle recorded per class), at beta in {0,1,50,155,250,500,800,880,950,999,1000} in rotation (vines above 1025 keys only a few per run in the quick tier); grow - probe - drain to 1/2..1/16 by Remove - every observer on every remaining key - regrow past the peak - drain to empty by Remove - regrow; Clone of a big tree then divergent edits on both sides; removals of two-child nodes whose successor lies deep (found on the real tree); equivalences coarser than identity (keys modulo n) with payloads; comparators delivering the sign as -1/0/1, differences, multiples, payload-dependent multiples, 2^40 and MinInt64/MaxInt64. After EVERY call of a B line a digest takes in the result, Len, IsEmpty, Min, Max and Get of the key just used (and t.max); about nine checkpoints per macro list, for every live tree, Len, IsEmpty, Min, Max, t.max, node count, a digest of the whole Inorder output and a digest of the whole shape read through one cursor. Counters delete-rebuild*/goat-rebuild are read from the implementation's own outputs. A case is non-trivial when it removed a present key, replaced an existing one, bulk-loaded duplicates, cloned, or has more than 20 ops.",
+	tr.Main("C01: whole histories of stree.Tree over (key,payload) elements compared by key. Comparators: natural, reversed and modulo-j orders, each delivering the sign as -1/0/1, as the difference, three times the difference, a payload-dependent multiple of the difference, sign times 2^40, MinInt64/MaxInt64, or through stree.KV.Compare (half of all histories use a non-unit style). Generators: small random histories over 3..12 keys with New/Add/Replace/Remove/Clear/Clone and full Inorder+shape dumps and Get/InorderAfter/stopped-Inorder probes after every mutation; every insertion order of 4..5 (thorough 6..7) keys followed by every single removal on a fresh clone and lookups of all keys; sign-only probes (keys spaced so that no comparison returns -1 or 1: Get/Add/Replace/Remove/InorderAfter on present keys, keys between two present ones and keys beyond both ends); sorted, reverse, zig-zag, inside-out, random and duplicate-heavy insertion patterns up to 160 (quick) / 1500 (thorough) keys at beta in {0,1,250,500,999,1000} plus random beta, each optionally drained ascending/descending/randomly/three-quarters and refilled; bulk New with unsorted duplicated keys (the kept representatives are recorded as oracle input); two-child removals found on the real tree followed by lookups of the promoted successor; Clone then mutate both copies; New with beta outside 0..1000 (down to MinInt64 and up to MaxInt64, with and without keys) must panic with exactly the documented value. After every mutation: result, Len, IsEmpty, Min, Max, t.max, node count and hashes of the full Inorder output and of the whole shape read through Root/Left/Right/Key, for every live tree. Plus sweeps of the float depth limit VerifLimit(beta,n). Scale stream (B lines, macro operations over arithmetic key sequences): trees of 2^k-1, 2^k, 2^k+1 keys for k = 3..12 and a few random sizes up to 8192, built by Add or Replace in ascending/descending/outside-in/inside-out/random order or by New from sorted/unsorted/duplicated keys (oracle recorded per class), at beta in {0,1,50,155,250,500,800,880,950,999,1000} in rotation (vines above 1025 keys only a few per run in the quick tier); grow - probe - drain to 1/2..1/16 by Remove - every observer on every remaining key - regrow past the peak - drain to empty by Remove - regrow; Clone of a big tree then divergent edits on both sides; removals of two-child nodes whose successor lies deep (found on the real tree); equivalences coarser than identity (keys modulo n) with payloads; comparators delivering the sign as -1/0/1, differences, multiples, payload-dependent multiples, 2^40 and MinInt64/MaxInt64. After EVERY call of a B line a digest takes in the result, Len, IsEmpty, Min, Max and Get of the key just used (and t.max); about nine checkpoints per macro list, for every live tree, Len, IsEmpty, Min, Max, t.max, node count, a digest of the whole Inorder output and a digest of the whole shape read through one cursor. Counters delete-rebuild*/goat-rebuild are read from the implementation's own outputs. Round 5 (ops Z, Y; B macro Z; comparator style q): traversals ALIVE TOGETHER - two or three InorderAfter/Inorder iterations started through iter.Pull and pulled in lock step or in random bursts over one tree or over an original and its clone (Clone taken after earlier range queries, then edits on either side), and read-only calls from inside a loop body (a second range query from key+d stopped at once / after a few keys / never, Inorder, Get, Min/Max/Len, Tree.Cursor with Next and Prev) at every or every other element of an outer InorderAfter/Inorder, exhaustively for every pair of start keys on trees of 1,2,3,5,7 keys and at random on trees up to 40 keys; what each traversal delivers must be what it delivers alone (model and reference evaluate each by itself); on big trees pairs of range queries on original and clone pulled in turns (digest); a comparator that during Get/InorderAfter/these ops reads the tree it is called for (Get, Len, Min, Max, InorderAfter, Cursor, Inorder in rotation). A case is non-trivial when it removed a present key, replaced an existing one, bulk-loaded duplicates, cloned, or has more than 20 ops.",
 		exec, func(g *tr.G) {
 			r := g.R
 			// invalid β, with and without keys: the documented panic and nothing else
